@@ -564,14 +564,145 @@ Proof.
   destruct cr as [a b bump]. cbn in Hcr. apply ranges_in_bounds; [exact Hnl|lia].
 Qed.
 
-(* ---- the concrete refutation: the source "⸥" ---- *)
-Theorem stray_close_never_returns : forall fuel, stray_body_loop fuel = None.
+(* ---- the same statements over the bundled leaves ---- *)
+Definition Lcr_ok (L : leaves) : crange -> Prop := cr_ok (l_len L).
+
+(* ALL that is assumed about the leaf parsers of the grammar (nothing else about the ~5000 lines of nom code
+   enters the theorems below): *)
+Record leaf_ok (L : leaves) : Prop := {
+  (* results carry cursors between the start cursor and the end of the source; logged ranges are built
+     from cursors of the source *)
+  lo_alt_ok : forall i j lg, i <= l_len L -> l_alt L i = AOk j lg -> i <= j /\ j <= l_len L /\ Forall (Lcr_ok L) lg;
+  lo_alt_unexp : forall i s k lg, i <= l_len L -> l_alt L i = AUnexp s k lg -> s <= k /\ k <= l_len L /\ Forall (Lcr_ok L) lg;
+  lo_alt_err : forall i s k lg, i <= l_len L -> l_alt L i = AErr s k lg -> i <= k /\ s <= k /\ k <= l_len L /\ Forall (Lcr_ok L) lg;
+  lo_alt_fail : forall i s k lg, i <= l_len L -> l_alt L i = AFail s k lg -> i <= k /\ s <= k /\ k <= l_len L /\ Forall (Lcr_ok L) lg;
+  lo_skip : forall k j, k <= l_len L -> l_skip_eos L k = Some j -> k <= j /\ j <= l_len L;
+  (* code_terminal consumes nothing only at eof or in front of a mika close bracket *)
+  lo_term_ok : forall j j', j <= l_len L -> l_term L j = TOk j' ->
+     j <= j' /\ j' <= l_len L /\ (j' = j -> j = l_len L \/ l_close_at L j = true);
+  lo_term_err : forall j s k, j <= l_len L -> l_term L j = TErr s k -> s <= k /\ k <= l_len L;
+  (* not_mech_code lists mika_section_close *)
+  lo_close_not_mech : forall i, l_close_at L i = true -> l_not_mech L i = true;
+  (* subtitles, mika blocks and section elements consume at least one grapheme *)
+  lo_ul : forall i j, i <= l_len L -> l_ul_subtitle L i = Some j -> i < j /\ j <= l_len L;
+  lo_mika : forall i j lg, i <= l_len L -> l_mika L i = Some (j, lg) -> i < j /\ j <= l_len L /\ Forall (Lcr_ok L) lg;
+  lo_elem_ok : forall i j lg, i <= l_len L -> l_sect_elem L i = EOk j lg -> i < j /\ j <= l_len L /\ Forall (Lcr_ok L) lg;
+  lo_elem_err : forall i s k lg, i <= l_len L -> l_sect_elem L i = EErr s k lg -> s <= k /\ k <= l_len L /\ Forall (Lcr_ok L) lg;
+  lo_blank : forall j, j <= l_len L -> j <= l_blank_lines L j /\ l_blank_lines L j <= l_len L;
+  lo_ws0 : forall i, i <= l_len L -> i <= l_ws0 L i /\ l_ws0 L i <= l_len L;
+  lo_title : forall i j lg, i <= l_len L -> l_title L i = Some (j, lg) -> i <= j /\ j <= l_len L /\ Forall (Lcr_ok L) lg
+}.
+
+Definition Lmres_ok (L : leaves) : mres -> Prop := mres_ok (l_len L).
+Definition Lsres_ok (L : leaves) : sres -> Prop := sres_ok (l_len L).
+
+Theorem L_progress_or_stop : forall L, leaf_ok L -> forall i n log,
+  i <= l_len L -> Forall (Lcr_ok L) log ->
+  match L_mech_step L i n log with
+  | MRet r => Lmres_ok L r /\ forall jj m lg, r = MOk jj m lg -> (jj = i /\ 0 < n) \/ jj = l_len L
+  | MNext j n' log' => i < j /\ j < l_len L /\ n' = S n /\ Forall (Lcr_ok L) log'
+  end.
 Proof.
-  intros fuel. unfold stray_body_loop.
-  apply body_hangs_at_close; [unfold stray_len; lia|reflexivity|reflexivity].
+  intros L H. destruct L; destruct H; cbn in *.
+  eapply progress_or_stop; eassumption.
 Qed.
 
-Lemma stray_parse_hangs : stray_parse = PHang.
+Theorem L_mech_code_terminates : forall L, leaf_ok L -> forall i log,
+  i <= l_len L -> Forall (Lcr_ok L) log ->
+  exists r, L_mech_code L i log = Some r /\ Lmres_ok L r /\
+            forall jj m lg, r = MOk jj m lg -> i <= jj /\ (i < l_len L -> i < jj).
+Proof.
+  intros L H. destruct L; destruct H; cbn in *.
+  eapply mech_code_terminates; eassumption.
+Qed.
+
+Theorem L_section_terminates : forall L, leaf_ok L -> forall i log,
+  i <= l_len L -> Forall (Lcr_ok L) log ->
+  exists r, L_section L i log = Some r /\ Lsres_ok L r /\
+    forall j lg, r = SOk j lg -> i <= j /\ (i < l_len L -> l_close_at L i = false -> i < j).
+Proof.
+  intros L H. destruct L; destruct H; cbn in *.
+  eapply section_terminates; eassumption.
+Qed.
+
+Theorem L_body_hangs_at_close : forall L i log,
+  i < l_len L -> l_close_at L i = true -> l_ul_subtitle L i = None ->
+  forall fuel, L_body_loop L fuel i log = None.
+Proof.
+  intros L. destruct L; cbn in *. intros. apply body_hangs_at_close; assumption.
+Qed.
+
+Theorem L_parse_outcome_total : forall L, leaf_ok L ->
+  (forall k, k < l_len L -> l_close_at L k = false) ->
+  match L_parse L with
+  | PTree f => f = l_len L
+  | PReport rep => rep <> [] /\ Forall (Lcr_ok L) rep
+  | PHang => False
+  end.
+Proof.
+  intros L H. destruct L; destruct H; cbn in *.
+  eapply parse_outcome_total; eassumption.
+Qed.
+
+(* ---- the concrete refutation: the source "⸥" ---- *)
+Theorem stray_close_never_returns : forall fuel, L_body_loop stray_leaves fuel 0 [] = None.
+Proof.
+  intros fuel. apply L_body_hangs_at_close; [cbn; lia|reflexivity|reflexivity].
+Qed.
+
+Lemma stray_parse_hangs : L_parse stray_leaves = PHang.
+Proof. vm_compute. reflexivity. Qed.
+
+(* everything that is assumed holds of the stray instance except the absence of a stray close: the
+   assumptions are not what makes the loop diverge *)
+Lemma stray_leaf_ok : leaf_ok stray_leaves.
+Proof.
+  constructor; cbn; unfold Lcr_ok; cbn.
+  - intros i j lg Hi H. discriminate.
+  - intros i s k lg Hi H. inversion H; subst. repeat split; try lia. constructor.
+  - intros i s k lg Hi H. discriminate.
+  - intros i s k lg Hi H. discriminate.
+  - intros k j Hk H. inversion H; subst. lia.
+  - intros j j' Hj H. discriminate.
+  - intros j s k Hj H. inversion H; subst. lia.
+  - intros i H. exact H.
+  - intros i j Hi H. discriminate.
+  - intros i j lg Hi H. discriminate.
+  - intros i j lg Hi H. discriminate.
+  - intros i s k lg Hi H. inversion H; subst. repeat split; try lia. constructor.
+  - intros j Hj. lia.
+  - intros i Hi. lia.
+  - intros i j lg Hi H. discriminate.
+Qed.
+
+(* non-vacuity of the assumptions: a concrete source with one statement *)
+Lemma tiny_leaf_ok : leaf_ok tiny_leaves.
+Proof.
+  constructor; cbn; unfold Lcr_ok; cbn.
+  - intros i j lg Hi H. destruct (Nat.eqb i 0) eqn:E; [|discriminate].
+    apply Nat.eqb_eq in E. inversion H; subst. repeat split; try lia. constructor.
+  - intros i s k lg Hi H. destruct (Nat.eqb i 0) eqn:E; [discriminate|].
+    inversion H; subst. repeat split; try lia. constructor.
+  - intros i s k lg Hi H. destruct (Nat.eqb i 0); discriminate.
+  - intros i s k lg Hi H. destruct (Nat.eqb i 0); discriminate.
+  - intros k j Hk H. inversion H; subst. lia.
+  - intros j j' Hj H. destruct (Nat.eqb j 1) eqn:E1.
+    + apply Nat.eqb_eq in E1. inversion H; subst. repeat split; try lia.
+    + destruct (Nat.eqb j 3) eqn:E3; [|discriminate]. apply Nat.eqb_eq in E3. inversion H; subst.
+      repeat split; try lia; try (intros _; left; reflexivity).
+  - intros j s k Hj H. destruct (Nat.eqb j 1); [discriminate|]. destruct (Nat.eqb j 3); [discriminate|].
+    inversion H; subst. lia.
+  - intros i H. discriminate.
+  - intros i j Hi H. discriminate.
+  - intros i j lg Hi H. discriminate.
+  - intros i j lg Hi H. discriminate.
+  - intros i s k lg Hi H. inversion H; subst. repeat split; try lia. constructor.
+  - intros j Hj. lia.
+  - intros i Hi. lia.
+  - intros i j lg Hi H. discriminate.
+Qed.
+
+Lemma tiny_parse : L_parse tiny_leaves = PTree 3.
 Proof. vm_compute. reflexivity. Qed.
 
 (* ====================================================================== *)
@@ -602,6 +733,25 @@ Proof.
     constructor; [apply line_okb_spec; exact H1|apply IH; exact H2].
 Qed.
 
+(* the facts checked on a record of the hook log *)
+Definition hrec_ok (h : hrec) : Prop :=
+  let s := h_site h in
+  ((s = 6 \/ s = 7 \/ s = 8) /\ 0 <= h_a h /\ h_a h < h_b h /\ h_b h <= h_len h)%Z \/
+  (s = 12 /\ h_b h = 1 /\ h_a h < h_len h)%Z \/
+  (((1 <= s /\ s <= 5) \/ (9 <= s /\ s <= 11)) /\ 0 <= h_a h /\ h_a h <= h_b h /\ h_b h <= h_len h)%Z.
+
+Lemma hrec_okb_spec : forall h, hrec_okb h = true -> hrec_ok h.
+Proof.
+  intros h H. unfold hrec_okb in H. unfold hrec_ok. cbv zeta in *.
+  destruct ((h_site h =? 6) || (h_site h =? 7) || (h_site h =? 8))%Z eqn:E1.
+  - left. rewrite !orb_true_iff, !Z.eqb_eq in E1. rewrite !andb_true_iff, !Z.leb_le, Z.ltb_lt in H. lia.
+  - destruct (h_site h =? 12)%Z eqn:E2.
+    + right. left. rewrite Z.eqb_eq in E2. rewrite andb_true_iff, Z.eqb_eq, Z.ltb_lt in H. lia.
+    + destruct (((1 <=? h_site h) && (h_site h <=? 5) || (9 <=? h_site h) && (h_site h <=? 11))%Z) eqn:E3; [|discriminate].
+      right. right. rewrite orb_true_iff, !andb_true_iff, !Z.leb_le in E3.
+      rewrite !andb_true_iff, !Z.leb_le in H. lia.
+Qed.
+
 (* what an `ok` verdict asserts about the implementation's behaviour on this text *)
 Definition C09_obs_spec (text : string) (p : pobs) : Prop :=
   po_tag p <> TgPanic /\                                          (* terminated without panic: a tree or a report *)
@@ -610,28 +760,50 @@ Definition C09_obs_spec (text : string) (p : pobs) : Prop :=
   table_ok (text_lines text) (po_lens p) (po_widths p) /\
   Forall (range_within (po_widths p)) (po_causes p ++ po_annots p) /\   (* every range lies within the input *)
   po_flags p = [] /\                                              (* the report's consumers did not panic *)
+  Forall hrec_ok (po_hook p) /\                                   (* the replayed hook log satisfies the loop invariants *)
   (po_tag p = TgOk -> po_causes p = [] /\ po_annots p = []) /\
   (po_tag p = TgErr -> po_causes p <> []).                        (* an error report is not empty *)
 
 Lemma is_nil_spec : forall A (l : list A), is_nil l = true -> l = [].
 Proof. intros A l H. destruct l; [reflexivity|discriminate]. Qed.
 
-Lemma obs_okb_sound : forall text p, obs_okb text p = true -> C09_obs_spec text p.
+Lemma corb_false_ranges : forall ws (l : list srange),
+  forallb (fun r => range_okb ws r || (false && is_zero r)) l = true -> Forall (range_within ws) l.
 Proof.
-  intros text p H. unfold obs_okb in H. rewrite !andb_true_iff in H.
+  intros ws l H. apply Forall_forall. intros r Hr. rewrite forallb_forall in H. specialize (H r Hr).
+  cbn [andb] in H. rewrite orb_false_r in H. unfold range_okb in H. rewrite andb_true_iff in H.
+  apply range_withinb_spec. tauto.
+Qed.
+
+Lemma okb_ranges : forall ws (l : list srange),
+  forallb (range_okb ws) l = true -> Forall (range_within ws) l.
+Proof.
+  intros ws l H. apply Forall_forall. intros r Hr. rewrite forallb_forall in H. specialize (H r Hr).
+  unfold range_okb in H. rewrite andb_true_iff in H. apply range_withinb_spec. tauto.
+Qed.
+
+Lemma obs_corb_sound : forall text p, obs_corb text p false = true -> po_flags p = [] -> C09_obs_spec text p.
+Proof.
+  intros text p H Hfl. unfold obs_corb in H. rewrite !andb_true_iff in H.
   destruct H as [[[[[[H1 H2] H3] H4] H5] H6] H7].
   unfold C09_obs_spec.
   split. { intros Ht. rewrite Ht in H7. discriminate. }
   split. { exact H1. }
   split. { apply Z.eqb_eq. exact H2. }
   split. { apply table_okb_spec. exact H3. }
-  split. { apply Forall_forall. intros r Hr. apply range_withinb_spec.
-           rewrite forallb_forall in H4. apply H4. exact Hr. }
-  split. { apply is_nil_spec. exact H6. }
+  split. { apply Forall_app. split; [apply corb_false_ranges; exact H4|apply okb_ranges; exact H5]. }
+  split. { exact Hfl. }
+  split. { apply Forall_forall. intros h Hh. apply hrec_okb_spec. rewrite forallb_forall in H6. apply H6. exact Hh. }
   split.
   - intros Ht. rewrite Ht in H7. rewrite andb_true_iff in H7. destruct H7 as [A B].
     split; apply is_nil_spec; assumption.
   - intros Ht. rewrite Ht in H7. intros Hc. rewrite Hc in H7. discriminate.
+Qed.
+
+Lemma obs_okb_sound : forall text p, obs_okb text p = true -> C09_obs_spec text p.
+Proof.
+  intros text p H. unfold obs_okb in H. rewrite andb_true_iff in H. destruct H as [H1 H2].
+  apply obs_corb_sound; [exact H1|apply is_nil_spec; exact H2].
 Qed.
 
 Lemma v_ok_not_kf : forall t i, v_kf i <> v_ok t.
@@ -645,41 +817,69 @@ Theorem judge_parse_sound : forall text o tag,
   judge_parse text o = v_ok tag -> exists p, o = RParse p /\ C09_obs_spec text p.
 Proof.
   intros text o tag H. unfold judge_parse in H. destruct o as [p| |].
-  - destruct (obs_okb text p) eqn:Hok.
-    + exists p. split; [reflexivity|apply obs_okb_sound; exact Hok].
-    + match type of H with (if ?c then _ else _) = _ => destruct c end.
-      * exfalso. exact (v_ok_not_kf _ _ H).
-      * exfalso. exact (v_ok_not_bad _ _ _ H).
+  - assert (Hgen : (if obs_okb text p then v_ok (match po_tag p with TgOk => "tree"%string | _ => "report"%string end)
+             else if obs_corb text p true && flags_matchb text p then
+               if existsb is_zero (po_causes p) then
+                 (if kf_fence_zero text then v_kf "fence-zero-range" else v_bad "range-outside-input" (Ax "ok-or-err-in-range"))
+               else v_kf "fmt-count-underflow"
+             else v_bad (first_bad text p) (Ax "ok-or-err-in-range")) = v_ok tag ->
+             exists p0, RParse p = RParse p0 /\ C09_obs_spec text p0).
+    { intros G. destruct (obs_okb text p) eqn:Hok.
+      - exists p. split; [reflexivity|apply obs_okb_sound; exact Hok].
+      - exfalso. destruct (obs_corb text p true && flags_matchb text p).
+        + destruct (existsb is_zero (po_causes p)).
+          * destruct (kf_fence_zero text); [exact (v_ok_not_kf _ _ G)|exact (v_ok_not_bad _ _ _ G)].
+          * exact (v_ok_not_kf _ _ G).
+        + exact (v_ok_not_bad _ _ _ G). }
+    destruct (po_tag p) eqn:Ht.
+    + apply Hgen. exact H.
+    + apply Hgen. exact H.
+    + exfalso. destruct (kf_ebnf text && po_same p); [exact (v_ok_not_kf _ _ H)|exact (v_ok_not_bad _ _ _ H)].
   - exfalso. destruct (kf_mika_close text); [exact (v_ok_not_kf _ _ H)|].
     destruct (kf_exp_nesting text); [exact (v_ok_not_kf _ _ H)|exact (v_ok_not_bad _ _ _ H)].
   - exfalso. exact (v_ok_not_bad _ _ _ H).
 Qed.
+
+Lemma v_malformed_not_ok : forall t, v_malformed <> v_ok t.
+Proof. intros t H. unfold v_malformed, v_ok in H. inversion H. Qed.
 
 Theorem judge_c09_sound : forall x tag,
   judge_c09 x = v_ok tag ->
   exists text o p, x = Lx [Lx [Ax "c09"%string; Qx text]; o] /\ dec_obs o = RParse p /\ C09_obs_spec text p.
 Proof.
   intros x tag H. unfold judge_c09 in H.
-  destruct x as [z|s|s|l]; try (inversion H; fail).
-  destruct l as [|c l]; [inversion H|].
-  destruct c as [z|s|s|lc]; try (inversion H; fail).
-  destruct lc as [|c1 lc]; [inversion H|].
-  destruct c1 as [z|s1|s1|l1]; try (inversion H; fail).
-  destruct (String.eqb s1 "c09") eqn:Hs.
-  2:{ exfalso. revert H Hs. clear. intros H Hs.
-      destruct s1 as [|a1 s1]; [inversion H|].
-      repeat (match goal with
-              | a : ascii |- _ => destruct a as [[] [] [] [] [] [] [] []]; try (inversion H; fail); clear a
-              | s : string |- _ => destruct s as [|? s]; try (inversion H; fail)
-              end); try discriminate. }
+  destruct x as [z|s|s|l]; try (exfalso; exact (v_malformed_not_ok _ H)).
+  destruct l as [|c l]; try (exfalso; exact (v_malformed_not_ok _ H)).
+  destruct c as [z|s|s|lc]; try (exfalso; exact (v_malformed_not_ok _ H)).
+  destruct lc as [|c1 lc]; try (exfalso; exact (v_malformed_not_ok _ H)).
+  destruct c1 as [z|s1|s1|l1]; try (exfalso; exact (v_malformed_not_ok _ H)).
+  destruct lc as [|c2 lc]; try (exfalso; exact (v_malformed_not_ok _ H)).
+  destruct c2 as [z|s2|text|l2]; try (exfalso; exact (v_malformed_not_ok _ H)).
+  destruct lc as [|c3 lc]; try (exfalso; exact (v_malformed_not_ok _ H)).
+  destruct l as [|o l]; try (exfalso; exact (v_malformed_not_ok _ H)).
+  destruct l as [|o2 l]; try (exfalso; exact (v_malformed_not_ok _ H)).
+  destruct (String.eqb s1 "c09") eqn:Hs; try (exfalso; exact (v_malformed_not_ok _ H)).
   apply String.eqb_eq in Hs. subst s1.
-  destruct lc as [|c2 lc]; [inversion H|].
-  destruct c2 as [z|s2|text|l2]; try (inversion H; fail).
-  destruct lc as [|c3 lc]; [|inversion H].
-  destruct l as [|o l]; [inversion H|].
-  destruct l as [|o2 l]; [|inversion H].
   destruct (judge_parse_sound text (dec_obs o) tag H) as [p [Hp Hspec]].
-  exists text, o, p. repeat split; assumption.
+  exists text, o, p. split; [reflexivity|split; [exact Hp|exact Hspec]].
+Qed.
+
+Lemma existsb_firstn_false : forall (f : srange -> bool) n l, existsb f l = false -> existsb f (firstn n l) = false.
+Proof.
+  intros f n. induction n as [|n IH]; intros l H; [reflexivity|].
+  destruct l as [|x r]; [reflexivity|]. cbn [firstn existsb] in *.
+  apply orb_false_iff in H. destruct H as [A B]. rewrite A, (IH r B). reflexivity.
+Qed.
+
+Lemma corb_no_zero : forall ws (l : list srange),
+  existsb is_zero l = false ->
+  forallb (fun r => range_okb ws r || (true && is_zero r)) l = true ->
+  forallb (fun r => range_okb ws r || (false && is_zero r)) l = true.
+Proof.
+  intros ws l. induction l as [|x r IH]; intros Hz H; [reflexivity|].
+  cbn [existsb forallb] in *. apply orb_false_iff in Hz. destruct Hz as [A B].
+  rewrite andb_true_iff in H. destruct H as [C D].
+  rewrite (IH B D). cbn [andb] in *. rewrite A in C. rewrite orb_false_r in *. rewrite C. reflexivity.
 Qed.
 
 (* a known-finding verdict is given only inside its class and only for the predicted wrong behaviour *)
@@ -687,21 +887,54 @@ Theorem judge_kf_narrow : forall text o id,
   judge_parse text o = v_kf id ->
   (id = "mika-close-loop"%string /\ o = RHang /\ kf_mika_close text = true) \/
   (id = "exp-nesting"%string /\ o = RHang /\ kf_mika_close text = false /\ nest_threshold <= nest_depth text) \/
+  (id = "ebnf-todo-panic"%string /\ exists p, o = RParse p /\ po_tag p = TgPanic /\ po_same p = true /\ kf_ebnf text = true) \/
+  (id = "fence-zero-range"%string /\ exists p, o = RParse p /\ po_tag p <> TgPanic /\ kf_fence_zero text = true /\
+      existsb is_zero (po_causes p) = true /\ obs_corb text p true = true /\ flags_matchb text p = true) \/
   (id = "fmt-count-underflow"%string /\ exists p, o = RParse p /\ po_flags p = ["fmtpanic"%string] /\
       (byte_lenZ text < Z.min (Z.of_nat (List.length (po_causes p))) 10)%Z /\
-      C09_obs_spec text (PO (po_tag p) (po_same p) (po_causes p) (po_annots p) (po_nlines p) (po_lens p) (po_widths p) [])).
+      C09_obs_spec text (PO (po_tag p) (po_same p) (po_causes p) (po_annots p) (po_nlines p) (po_lens p) (po_widths p) [] (po_hook p))).
 Proof.
   intros text o id H. unfold judge_parse in H. destruct o as [p| |].
-  - destruct (obs_okb text p) eqn:Hok; [inversion H|].
-    match type of H with (if ?c then _ else _) = _ => destruct c eqn:Hc end; [|inversion H].
-    right. right. inversion H. split; [reflexivity|]. exists p. split; [reflexivity|].
-    rewrite !andb_true_iff in Hc. destruct Hc as [[Hf Hu] Ho].
-    split.
-    + unfold only_flag in Hf. destruct (po_flags p) as [|g [|g2 r]]; try discriminate.
-      apply String.eqb_eq in Hf. subst g. reflexivity.
-    + split.
-      * unfold kf_fmt_underflow, fmt_count, fmt_shown in Hu. apply Z.ltb_lt in Hu. lia.
-      * apply obs_okb_sound. exact Ho.
+  - assert (Hgen : po_tag p <> TgPanic ->
+             (if obs_okb text p then v_ok (match po_tag p with TgOk => "tree"%string | _ => "report"%string end)
+             else if obs_corb text p true && flags_matchb text p then
+               if existsb is_zero (po_causes p) then
+                 (if kf_fence_zero text then v_kf "fence-zero-range" else v_bad "range-outside-input" (Ax "ok-or-err-in-range"))
+               else v_kf "fmt-count-underflow"
+             else v_bad (first_bad text p) (Ax "ok-or-err-in-range")) = v_kf id ->
+             (id = "fence-zero-range"%string /\ exists p0, RParse p = RParse p0 /\ po_tag p0 <> TgPanic /\ kf_fence_zero text = true /\
+                existsb is_zero (po_causes p0) = true /\ obs_corb text p0 true = true /\ flags_matchb text p0 = true) \/
+             (id = "fmt-count-underflow"%string /\ exists p0, RParse p = RParse p0 /\ po_flags p0 = ["fmtpanic"%string] /\
+                (byte_lenZ text < Z.min (Z.of_nat (List.length (po_causes p0))) 10)%Z /\
+                C09_obs_spec text (PO (po_tag p0) (po_same p0) (po_causes p0) (po_annots p0) (po_nlines p0) (po_lens p0) (po_widths p0) [] (po_hook p0)))).
+    { intros Hnp G. destruct (obs_okb text p) eqn:Hok; [inversion G|].
+      destruct (obs_corb text p true && flags_matchb text p) eqn:Hc; [|inversion G].
+      rewrite andb_true_iff in Hc. destruct Hc as [Hcore Hfm].
+      destruct (existsb is_zero (po_causes p)) eqn:Hz.
+      - destruct (kf_fence_zero text) eqn:Hf; [|inversion G].
+        left. inversion G. split; [reflexivity|]. exists p. repeat split; assumption.
+      - right. inversion G. split; [reflexivity|]. exists p. split; [reflexivity|].
+        (* no zero cause: the core holds strictly; so the flags are the reason *)
+        assert (Hstrict : obs_corb text p false = true).
+        { unfold obs_corb in *. rewrite !andb_true_iff in *.
+          destruct Hcore as [[[[[[A1 A2] A3] A4] A5] A7] A6]. repeat split; try assumption.
+          apply corb_no_zero; assumption. }
+        unfold obs_okb in Hok. rewrite Hstrict in Hok. cbn [andb] in Hok.
+        unfold flags_matchb, pred_fmtpanic in Hfm.
+        rewrite (existsb_firstn_false is_zero 10 _ Hz) in Hfm. cbn [orb] in Hfm.
+        destruct (po_flags p) as [|f [|f2 fr]] eqn:Hfl; try discriminate.
+        rewrite andb_true_iff in Hfm. destruct Hfm as [F1 F2].
+        apply String.eqb_eq in F1. subst f.
+        split; [reflexivity|]. split.
+        + unfold kf_fmt_underflow, fmt_count, fmt_shown in F2. apply Z.ltb_lt in F2. lia.
+        + apply obs_corb_sound; [|reflexivity].
+          unfold obs_corb in *. cbn [po_tag po_same po_causes po_annots po_nlines po_lens po_widths po_hook]. exact Hstrict. }
+    destruct (po_tag p) eqn:Ht.
+    + destruct (Hgen ltac:(discriminate) H) as [G|G]; [right; right; right; left; exact G|right; right; right; right; exact G].
+    + destruct (Hgen ltac:(discriminate) H) as [G|G]; [right; right; right; left; exact G|right; right; right; right; exact G].
+    + destruct (kf_ebnf text && po_same p) eqn:He; [|inversion H].
+      rewrite andb_true_iff in He. destruct He as [E1 E2].
+      right. right. left. inversion H. split; [reflexivity|]. exists p. repeat split; assumption.
   - destruct (kf_mika_close text) eqn:Hm.
     + left. inversion H. repeat split; reflexivity.
     + destruct (kf_exp_nesting text) eqn:Hn; [|inversion H].
